@@ -19,6 +19,11 @@ pub struct Motif {
     pub desc: Option<String>,  // JASPAR / TRANSFAC description
     pub order: Vec<usize>,     // symbol ranks in the order the file names them
     pub vals: Vec<Vec<String>>, // vals[j][pos] = entry for symbol order[j] at position pos (canonical text)
+    /// TRANSFAC only: literature references (RN / RX / RA / RT / RL blocks): (number, xref, pubmed id, title, link)
+    pub refs: Vec<(u32, Option<String>, Option<String>, Option<String>, Option<String>)>,
+    /// TRANSFAC only: further metadata lines the format allows (DT, CO, BF, BS, BA, CC), written before / after the matrix
+    pub pre: Vec<String>,
+    pub post: Vec<String>,
 }
 
 fn opt(v: &Option<String>) -> Value {
@@ -28,7 +33,8 @@ fn opt(v: &Option<String>) -> Value {
 impl Motif {
     pub fn to_json(&self) -> Value {
         json!({"id": self.id, "acc": opt(&self.acc), "name": opt(&self.name), "desc": opt(&self.desc),
-               "order": self.order, "vals": self.vals})
+               "order": self.order, "vals": self.vals,
+               "refs": self.refs.iter().map(|r| json!([r.0, opt(&r.1), opt(&r.2), opt(&r.3), opt(&r.4)])).collect::<Vec<_>>()})
     }
 }
 
@@ -81,7 +87,31 @@ pub fn gen_motif<A: Abc>(rng: &mut impl Rng, fmt: &str, idx: usize) -> Motif {
     let meta = |rng: &mut dyn rand::RngCore, p: f64| -> Option<String> {
         if rng.gen_bool(p) { Some(format!("{} {}", word(rng, 5), word(rng, 3))) } else { None }
     };
+    // the rest of what a TRANSFAC entry may carry (every tag the parser knows): it must not disturb the fields of C14
+    let mut refs = Vec::new();
+    let mut pre = Vec::new();
+    let mut post = Vec::new();
+    if fmt == "transfac" && rng.gen_bool(0.6) {
+        for n in 1..=rng.gen_range(0..3u32) {
+            refs.push((n, if rng.gen_bool(0.6) { Some(format!("RE{:07}", rng.gen_range(0..9999999))) } else { None },
+                       if rng.gen_bool(0.6) { Some(format!("{}", rng.gen_range(100000..99999999))) } else { None },
+                       if rng.gen_bool(0.7) { Some(format!("{} {} {}", word(rng, 6), word(rng, 4), word(rng, 7)).replace('.', "x")) } else { None },
+                       if rng.gen_bool(0.7) { Some(format!("{} {}:{}-{} ({}).", word(rng, 5).replace('.', "x"), rng.gen_range(1..400), rng.gen_range(1..900), rng.gen_range(900..1900), rng.gen_range(1970..2024))) } else { None }));
+        }
+        let lines = [format!("DT  {:02}.{:02}.{} (created); {}.", rng.gen_range(1..29), rng.gen_range(1..13), rng.gen_range(1990..2024), word(rng, 3).replace('.', "x")),
+                     format!("DT  {:02}.{:02}.{} (updated); {}.", rng.gen_range(1..29), rng.gen_range(1..13), rng.gen_range(1990..2024), word(rng, 3).replace('.', "x")),
+                     "CO  Copyright (C), Biobase GmbH.".to_string(),
+                     format!("BF  T{:05}; {}; Species: human, Homo sapiens.", rng.gen_range(0..99999), word(rng, 4)),
+                     format!("BS  {}; R{:05}; 1; 11;; p.", "ACGTTGCAAGT", rng.gen_range(0..99999)),
+                     format!("BA  {} compiled sequences", rng.gen_range(1..99)),
+                     format!("CC  {} {}", word(rng, 8), word(rng, 5)),
+                     format!("CC  {}\nCC  {}", word(rng, 8), word(rng, 5))];
+        for l in lines.iter() {
+            if rng.gen_bool(0.35) { if rng.gen_bool(0.5) { pre.push(l.clone()); } else { post.push(l.clone()); } }
+        }
+    }
     Motif {
+        refs, pre, post,
         id: format!("M{}_{}", idx, word(rng, 4)),
         acc: if fmt == "transfac" && rng.gen_bool(0.8) { Some(format!("AC{:05}", idx)) } else { None },
         name: if fmt == "transfac" { meta(rng, 0.5) } else { None },
@@ -123,6 +153,19 @@ pub fn render<A: Abc>(fmt: &str, motifs: &[Motif], rng: &mut impl Rng, version_b
                 s.push_str(&format!("ID  {}\nXX\n", mo.id));
                 if let Some(n) = &mo.name { s.push_str(&format!("NA  {}\nXX\n", n)); }
                 if let Some(d) = &mo.desc { s.push_str(&format!("DE  {}\nXX\n", d)); }
+                for l in &mo.pre { s.push_str(l); s.push_str("\nXX\n"); }
+                let refs_first = mo.refs.len() % 2 == 1;
+                let render_refs = |s: &mut String| {
+                    for r in &mo.refs {
+                        match &r.1 { Some(x) => s.push_str(&format!("RN  [{}]; {}.\n", r.0, x)), None => s.push_str(&format!("RN  [{}]\n", r.0)) }
+                        if let Some(x) = &r.2 { s.push_str(&format!("RX  PUBMED: {}.\n", x)); }
+                        s.push_str("RA  Sun X.-H., Baltimore D.\n");
+                        if let Some(x) = &r.3 { s.push_str(&format!("RT  {}\n", x)); }
+                        if let Some(x) = &r.4 { s.push_str(&format!("RL  {}\n", x)); }
+                        s.push_str("XX\n");
+                    }
+                };
+                if refs_first { render_refs(&mut s); }
                 s.push_str("P0");
                 for &r in &mo.order { s.push_str(&format!("      {}", letter(r))); }
                 s.push('\n');
@@ -131,7 +174,10 @@ pub fn render<A: Abc>(fmt: &str, motifs: &[Motif], rng: &mut impl Rng, version_b
                     for j in 0..mo.order.len() { s.push_str(&format!(" {:>6}", mo.vals[j][pos])); }
                     s.push_str("      N\n");
                 }
-                s.push_str("XX\n//\n");
+                s.push_str("XX\n");
+                for l in &mo.post { s.push_str(l); s.push_str("\nXX\n"); }
+                if !refs_first { render_refs(&mut s); }
+                s.push_str("//\n");
             }
             "uniprobe" => {
                 s.push_str(&format!("{}\n", mo.id));
@@ -240,10 +286,12 @@ driver!(DJaspar16Dna, jaspar16::Reader<Chunked, Dna>, |r: &jaspar16::Record<Dna>
 driver!(DJaspar16Prot, jaspar16::Reader<Chunked, Protein>, |r: &jaspar16::Record<Protein>| json!({"id": r.id(), "acc": [], "name": [], "desc": os(r.description()), "m": u32_rows(r.matrix().matrix())}));
 driver!(DTransfacDna, transfac::Reader<Chunked, Dna>, |r: &transfac::Record<Dna>| json!({"id": r.id().unwrap_or(""), "acc": os(r.accession()), "name": os(r.name()), "desc": os(r.description()),
         "m": r.data().map(f32_rows).unwrap_or_default(), "has_data": r.data().is_some(),
-        "counts": r.to_counts().map(|c| u32_rows(c.matrix())).unwrap_or_default()}));
+        "counts": r.to_counts().map(|c| u32_rows(c.matrix())).unwrap_or_default(),
+        "refs": r.references().iter().map(|x| json!([x.number().local(), os(x.number().xref()), os(x.pmid()), os(x.title()), os(x.link())])).collect::<Vec<_>>()}));
 driver!(DTransfacProt, transfac::Reader<Chunked, Protein>, |r: &transfac::Record<Protein>| json!({"id": r.id().unwrap_or(""), "acc": os(r.accession()), "name": os(r.name()), "desc": os(r.description()),
         "m": r.data().map(f32_rows).unwrap_or_default(), "has_data": r.data().is_some(),
-        "counts": r.to_counts().map(|c| u32_rows(c.matrix())).unwrap_or_default()}));
+        "counts": r.to_counts().map(|c| u32_rows(c.matrix())).unwrap_or_default(),
+        "refs": r.references().iter().map(|x| json!([x.number().local(), os(x.number().xref()), os(x.pmid()), os(x.title()), os(x.link())])).collect::<Vec<_>>()}));
 driver!(DUniprobeDna, uniprobe::Reader<Chunked, Dna>, |r: &uniprobe::Record<Dna>| json!({"id": r.id(), "acc": [], "name": [], "desc": [], "m": f32_rows(r.matrix().matrix())}));
 driver!(DUniprobeProt, uniprobe::Reader<Chunked, Protein>, |r: &uniprobe::Record<Protein>| json!({"id": r.id(), "acc": [], "name": [], "desc": [], "m": f32_rows(r.matrix().matrix())}));
 
